@@ -59,6 +59,14 @@ func c06Subtree(r *R) {
 	}
 	mk := func(name string) *Spec { return &Spec{Name: name, OnLaunch: launch, OnOther: onOther} }
 	top := mk("a")
+	if r.Chance(20) {
+		// a top-level actor watches its own parent, the root actor (the only actor without a parent)
+		top.OnLaunch = func(ctx vivid.ActorContext, p *Probe) {
+			launch(ctx, p)
+			ctx.Watch(ctx.Parent())
+			r.Count("top-level-actor-watches-the-root")
+		}
+	}
 	paths := []string{"/a"}
 	parent := map[string]string{"/a": "/"}
 	nB := 1 + r.Choose(3)
